@@ -162,7 +162,7 @@ def regress_items():
 def differential(ctx, n_prog, cfgs, salt="gen", features=None):
     t0 = time.time()
     items, stats = D.generate(ctx, salt, n_prog, features=features, ncalls=8 if ctx.tier == "thorough" else 5,
-                              nprobe=6 if ctx.tier == "quick" else max(6, n_prog // 12))
+                              nprobe=4 if ctx.tier == "quick" else max(8, n_prog // 12))
     reg = regress_items()
     for it, m in zip(reg, H.model_eval([(r["prog"], r["calls"]) for r in reg], "c01reg")):
         it["model"] = m
